@@ -364,6 +364,16 @@ def run_scene(c):
     ll2cr_blocks = [(("ll2cr", i, 0), ("ll2cr", i, 0)) for i in range(len(starts))]
     tasks = dask_ewa.DaskEWAResampler._generate_fornav_dask_tasks(out_chunks, ll2cr_blocks, "t", "inp", area, fill, {})
     res["tasks"] = sorted([[k[1], k[2], k[3], v[3].start, v[3].stop, v[4].start, v[4].stop, v[5][1]] for k, v in tasks.items()])
+    # the task dictionary in insertion order, for the full block list and for a block list with entries left out
+    # (what persist=True produces): z_idx then differs from in_row_idx
+    raw = []
+    for keep in (list(range(len(starts))), [i for i in range(len(starts)) if i % 2 == 1 or i == len(starts) - 1]):
+        blks = [(("ll2cr", i, 0), 1000 + i) for i in keep]
+        td = dask_ewa.DaskEWAResampler._generate_fornav_dask_tasks(out_chunks, blks, "t", "inp", area, fill, {})
+        raw.append({"blocks": [[i, 0, 1000 + i] for i in keep],
+                    "items": [[k[1], k[2], k[3], v[3].start, v[3].stop, v[4].start, v[4].stop, v[5][1], v[5][2], v[1]] for k, v in td.items()],
+                    "ok": all(k[0] == "t" and v[0] is dask_ewa._delayed_fornav and v[2] is area and v[5][0] == "inp" for k, v in td.items())})
+    res["tasks_raw"] = raw
     if c.get("want_sub_fp"):
         sub = []
         pyfill = fill
